@@ -75,7 +75,9 @@ func (s *arraiServer) Observe(req *pb.ObserveReq, stream pb.Arrai_ObserveServer)
 	if err != nil {
 		return err
 	}
-	retch := make(chan error)
+	// Buffered: a failed Send and the engine's subsequent close both report
+	// here, on the engine goroutine, while only the first report is received.
+	retch := make(chan error, 2)
 
 	send := func(resp *pb.ObserveResp) error {
 		if err = stream.Send(resp); err != nil {
